@@ -4,6 +4,7 @@ import (
 	"bufio"
 	"fmt"
 	"io"
+	"os"
 	"os/exec"
 	"strings"
 	"time"
@@ -136,6 +137,7 @@ type Solver struct {
 	ufStack   [][]string
 	Queries   int
 	SolverNs  int64
+	GetValueNs int64
 	Errors    []string
 	XChecks   int
 	XDisagree []string
@@ -152,7 +154,11 @@ func NewSolver(tt *TermTable, timeoutMs int, mirrors []string) (*Solver, error) 
 }
 
 func (s *Solver) start() error {
-	p, err := startProc("z3", s.timeoutMs)
+	prim := os.Getenv("GOSYM_PRIMARY")
+	if prim == "" {
+		prim = "z3-new"
+	}
+	p, err := startProc(prim, s.timeoutMs)
 	if err != nil {
 		return err
 	}
@@ -351,7 +357,7 @@ func (s *Solver) CheckWithX(extra *Term, what string) string {
 		s.SolverNs += int64(time.Since(t0))
 		s.XChecks++
 		if r2 != r && r2 != "unknown" && r != "unknown" {
-			s.XDisagree = append(s.XDisagree, fmt.Sprintf("%s: z3=%s %s=%s", what, r, m.name, r2))
+			s.XDisagree = append(s.XDisagree, fmt.Sprintf("%s: primary=%s %s=%s", what, r, m.name, r2))
 		}
 	}
 	s.sendAll("(pop 1)")
@@ -361,6 +367,15 @@ func (s *Solver) CheckWithX(extra *Term, what string) string {
 // Model returns values of the given terms after a sat Check() on the primary, under extra.
 // It re-checks (push/assert/check/get-value/pop). ok=false if not sat.
 func (s *Solver) Model(extra *Term, terms []*Term) (map[*Term]uint64, map[*Term][]byte, bool) {
+	a, b, ok, _ := s.ModelR(extra, terms)
+	return a, b, ok
+}
+
+// ModelR is Model that also returns the check-sat verdict.
+func (s *Solver) ModelR(extra *Term, terms []*Term) (map[*Term]uint64, map[*Term][]byte, bool, string) {
+	if extra.IsFalse() {
+		return nil, nil, false, "unsat"
+	}
 	s.define(extra)
 	for _, t := range terms {
 		s.define(t)
@@ -373,7 +388,7 @@ func (s *Solver) Model(extra *Term, terms []*Term) (map[*Term]uint64, map[*Term]
 	r := s.Check()
 	defer s.sendAll("(pop 1)")
 	if r != "sat" {
-		return nil, nil, false
+		return nil, nil, false, r
 	}
 	vals := map[*Term]uint64{}
 	bigs := map[*Term][]byte{}
@@ -399,10 +414,13 @@ func (s *Solver) Model(extra *Term, terms []*Term) (map[*Term]uint64, map[*Term]
 			continue
 		}
 		s.prim.send(sb.String())
+		tg := time.Now()
 		resp := s.prim.readSexp()
+		s.SolverNs += int64(time.Since(tg))
+		s.GetValueNs += int64(time.Since(tg))
 		if strings.HasPrefix(resp, "(error") {
 			s.Errors = append(s.Errors, "get-value: "+resp)
-			return nil, nil, false
+			return nil, nil, false, "unknown"
 		}
 		parsed := parseGetValue(resp)
 		k := 0
@@ -429,7 +447,7 @@ func (s *Solver) Model(extra *Term, terms []*Term) (map[*Term]uint64, map[*Term]
 			}
 		}
 	}
-	return vals, bigs, true
+	return vals, bigs, true, "sat"
 }
 
 // parseGetValue splits "((a v) (b v))" into the value strings.
